@@ -12,6 +12,16 @@ class AnalysisError(Exception):
     """The analysis itself is broken (missing anchor, parse failure...)."""
 
 
+SYNTHETIC_SRC = '''
+def iter_sentinel(function, sentinel):
+    while True:
+        value = function()
+        if value == sentinel:
+            return
+        yield value
+'''
+
+
 class FuncInfo:
     def __init__(self, qualname, node, module, cls=None):
         self.qualname = qualname
@@ -312,6 +322,25 @@ class Program:
         if ci is None:
             raise AnalysisError(f'anchor class {full} not found in the current tree')
         return ci
+
+    def synthetic(self, name):
+        """Python-level model of a builtin (analysed like repository code; never reported as an anchor)."""
+        mod = self.modules.get('<builtins>')
+        if mod is None:
+            tree = ast.parse(SYNTHETIC_SRC, filename='<builtins>')
+            for n in ast.walk(tree):
+                for ch in ast.iter_child_nodes(n):
+                    ch._parent = n
+            mod = Module('<builtins>', '<builtins>', tree, SYNTHETIC_SRC)
+            self.modules['<builtins>'] = mod
+            for st in tree.body:
+                fi = FuncInfo(f'builtins.{st.name}', st, mod)
+                mod.symbols[st.name] = ('func', fi)
+                self._own(st, fi)
+        b = mod.symbols.get(name)
+        if b is None:
+            raise AnalysisError(f'no synthetic model for {name}')
+        return b[1]
 
     def has_func(self, qualname):
         full = qualname if qualname.startswith(PKG + '.') else f'{PKG}.{qualname}'
